@@ -268,7 +268,7 @@ pub fn run(ctx: &Ctx) -> i32 {
         tier,
         seed: ctx.seed,
         level: "exploration",
-        rule: "verifier level: (accepted names, certificate name, dialed name) triples from a pool of 12 DNS-shaped names (prefixes/suffixes of one another, one character apart, dotted, long) against the model accept iff name in accepted (and cert name = dialed name for the server check). end to end: 3-5 real Networks with (primary, optional alternate) from a 3-name family, equal or different keys; every ordered pair dials (model: success iff dialer.primary in accepted(listener)); an adversarial dialer with every (hello name, certificate name) combination (model: admitted iff both accepted); an adversarial listener presenting every certificate name (model: success iff = dialer.primary). distinct by (n, alternates, outcome mix)".into(),
+        rule: "verifier level: (accepted names, certificate name, dialed name) triples from a pool of 12 DNS-shaped names (prefixes/suffixes of one another, one character apart, dotted, long) against the model accept iff name in accepted (and cert name = dialed name for the server check). end to end: 3-5 real Networks with (primary, optional alternate) from a 3-name family, equal or different keys; every ordered pair dials (model: success iff dialer.primary in accepted(listener)); an adversarial dialer with every (hello name, certificate name) combination (model: admitted iff both accepted); an adversarial listener presenting every certificate name (model: success iff = dialer.primary). distinct by (n, alternates, outcome mix) The adversarial listener is dialed plainly and naming its real identity.".into(),
         assumptions: vec!["upper/lower-case variants and wildcard certificates are not judged (the property does not say which comparison is intended)".into()],
         summary,
         extra: Default::default(),
